@@ -343,6 +343,35 @@ def run(ctx, scale=1.0):
             else:
                 db, kind = mutate(rng, da, dg)
                 check_pair(drv, da, db, kind, values, out, stats)
+        # compositions and tuples whose members are the same elements in another order, or repeated differently
+        for i in range(int(80 * scale)):
+            members = []
+            while len(members) < rng.choice([2, 3]):
+                m = dg.leaf()
+                if all(json.dumps(m, sort_keys=True) != json.dumps(x, sort_keys=True) for x in members):
+                    members.append(m)
+            how = i % 4
+            if how == 0:
+                ea, eb, kind = members, list(reversed(members)), "members-reordered"
+            elif how == 1:
+                ea, eb, kind = [members[0], members[0]] + members[1:], [members[0]] + members[1:] + [members[-1]], "members-repeated"
+            elif how == 2:
+                ea, eb, kind = members, members + [members[0]], "member-repeated-once"
+            else:
+                ea, eb, kind = members, list(reversed(members)), "tuple-items-reordered"
+            if how == 3:
+                da = {"cls": rng.choice(["Array", "Element"]), "kw": {"itemsKind": "tuple"}, "items": ea}
+                db = {**copy.deepcopy(da), "items": eb}
+                vals = [[1, "a"], ["a", 1], [None, True], [1], [], [2.5, "x", None]]
+            else:
+                cls = rng.choice(["AnyOf", "OneOf", "AllOf"])
+                da, db = {"cls": cls, "kw": {}, "elements": ea}, {"cls": cls, "kw": {}, "elements": eb}
+                vals = [1, "a", None, True, 2.5, [], {}, "abc", 0, -1, 100]
+            if rng.random() < 0.4:
+                # the same pair one level down, inside a property
+                wrap = lambda x: {"cls": "Element", "kw": {"hasProps": True}, "props": [[{"name": "p", "source": "p"}, x]]}
+                da, db, vals = wrap(da), wrap(db), [{"p": v} for v in vals]
+            check_pair(drv, da, copy.deepcopy(db), kind, vals + vg.values(dump_to_schema(da), 3), out, stats)
         # pairs whose properties hold the *same* element object and differ in a property attribute only
         from statham.schema.elements import Element as _El, Object as _Obj
         from statham.schema.elements.meta import ObjectClassDict as _OCD, ObjectMeta as _OM
